@@ -16,7 +16,8 @@ Nothing in this module knows z3.
 
 class Loop(object):
     def __init__(self, invariant=None, modifies=None, unroll=False, ghost_updates=None,
-                 frame=None, broadcast=None):
+                 frame=None, broadcast=None, ghost=None):
+        self.ghost = dict(ghost or {})     # loop-local ghost ints: name -> (initial expr, end-of-iteration update expr)
         self.broadcast = broadcast        # (contract id, expected method name | None)
         self.invariant = _labelled(invariant)
         self.modifies = modifies          # optional explicit havoc set (field names)
@@ -56,7 +57,7 @@ class Contract(object):
                  doc="", fresh_result=None, allow_raises=None, with_items=None,
                  spec_only=False, opaque_calls=None, strict_raises=True,
                  pos_params=None, vararg=None, kwarg=None, defaults=None,
-                 frame_exempt=None, assume=None, globals=None):
+                 frame_exempt=None, assume=None, globals=None, ghost_stores=None):
         self.fid = fid
         self.params = dict(params or {})        # name -> type string
         self.requires = _labelled(requires)
@@ -88,6 +89,7 @@ class Contract(object):
         self.defaults = dict(defaults or {})    # name -> python constant
         self.frame_exempt = list(frame_exempt or [])
         self.globals = dict(globals or {})      # name -> ("singleton", cls) | ("contract", id) | constant
+        self.ghost_stores = list(ghost_stores or [])   # [(ghost array, index expr, value expr)]: functional update
         self.assume = _labelled(assume)         # assumptions local to the proof of this function (listed in evidence)
 
 
